@@ -857,7 +857,7 @@ func execC18(ci any) (r hx.Result) {
 
 func init() {
 	hx.Register(&hx.Spec{ID: "C18", Gen: genC18Multi, Exec: execC18, New: func() any { return new(c18Case) },
-		Rule: "case = base image (fat12, fat16, fat32, ext4 with and without metadata_csum, ext4 made by mke2fs, ext4 made by mke2fs with a hash-indexed directory + sparse file + xattrs, iso9660 plain and Rock Ridge, squashfs uncompressed and gzip), evaluations = corruptions applied to it: for every byte range the reader consumes during a clean open + walk + read-everything (minus file payload), every aligned 1/2/4/8-byte word x {0, 1, 0x7F.., 0x80.., 0xFF.., max-1, original+-1, original^0x80, original<<1, image size in bytes / sectors / blocks, and for 1/2/4-byte words the values of the two neighbouring words and those +-1, for 2/4-byte words 0x100 0x400 0x1000 0x1fff 0x2000 0x2001}, plus FAT chain self-links, 2-cycles, out-of-range, free and reserved links in either FAT copy, each opened with the real size and with size 0; enumerated, not sampled (quick: a strided, seeded subset; thorough: all); every member is distinct (a different word or value); non-trivial = the damaged image is still accepted at open, so listing and reading run on damaged structures (probes refused at open are counted per base under refused_at_open)"})
+		Rule: "case = base image (fat12, fat16, fat32, ext4 with and without metadata_csum, ext4 made by mke2fs, ext4 made by mke2fs with a hash-indexed directory + sparse file + xattrs, iso9660 plain and Rock Ridge, squashfs uncompressed and gzip), evaluations = corruptions applied to it: for every byte range the reader consumes during a clean open + walk + read-everything (minus file payload), every aligned 1/2/4/8-byte word x {0, 1, 0x7F.., 0x80.., 0xFF.., max-1, original+-1, original^0x80, original<<1, image size in bytes / sectors / blocks, and for 1/2/4-byte words the values of the two neighbouring words and those +-1, for 2/4-byte words 0x100 0x400 0x1000 0x1fff 0x2000 0x2001, for 4-byte words single high bits (quick: 5 of them), thorough: for fields holding 16..1024 every value from 2 to original+7}, plus FAT chain self-links, 2-cycles, out-of-range, free and reserved links in either FAT copy, each opened with the real size and with size 0; enumerated, not sampled (quick: a strided, seeded subset; thorough: all); every member is distinct (a different word or value); non-trivial = the damaged image is still accepted at open, so listing and reading run on damaged structures (probes refused at open are counted per base under refused_at_open)"})
 }
 
 // TestC18 enumerates this shard's share of the fault families of every base image.
